@@ -1,6 +1,7 @@
 import SaModel.Lemmas.C17Range
 import SaModel.Lemmas.C17TouchTyped
 import SaModel.Lemmas.C17UntouchedTyped
+import SaModel.Lemmas.C17UntouchedRefl
 /-
 C17 — structurally inconsistent array views give an error, not a panic or foreign data.
 Property theorems only.  Model: SaModel/Read/Reader.lean (readers after the `fix:` commits = `Fixes.all`);
@@ -11,6 +12,10 @@ all statements are over ARBITRARY `Arr` (no well-formedness hypothesis).
   of the buffer the view designates (`bytes_in_range`, `view_in_range`, `fsb_in_range`, `dict_in_range`), and
   every successful element read is below the array's length (`isSome_ok_lt_len`): children are addressed only
   through `is_some`-guarded reads, so no element outside a child is ever returned.
+* `readAs_touch_in_range` (+ `readAny_…`, `readRecord_…`): a successful read implies the run-time predicate `touchOK`.
+* `untouched_ok` (+ `untouched_ok_any`, `untouched_ok_isSome`, `untouched_corruption_ok`, `readRecord_untouched`,
+  `readAll_untouched`): two views that agree on the footprint of a read (`Spec.touchEq`) give the same result;
+  `touchEq_refl`.
 * negations for the pinned readers with concrete witnesses (`decide`).
 -/
 namespace SaModel.Props.C17
@@ -734,6 +739,15 @@ theorem readRecord_untouched {t : Target} {fm fm' : FieldMeta} {base col : Arr} 
   unfold readRecord
   simp only [ge_of_lt_eq hl, hr]
 
+/-- the bulk read of the suite (`Vec<T>::deserialize`: rows 0 … n-1 in order, stopping at the first error) -/
+theorem readAll_untouched {t : Target} {a a' : Arr} {n : Nat} (h : ∀ i, i < n → touchEq t a a' i = true) :
+    readRange (fun i => readAs Fixes.all t a i) 0 n = readRange (fun i => readAs Fixes.all t a' i) 0 n :=
+  readRange_congr n 0 (fun k hk => by simpa using untouched_ok (h k hk))
+
+/-- the relation never asks for more than equality of the views: every view agrees with itself, for every target and
+slot (also out of range, also where the view is inconsistent) -/
+theorem touchEq_refl (t : Target) (a : Arr) (i : Nat) : touchEq t a a i = true := touchEqW_refl a _ _ i
+
 /-- non-vacuity 1 (byte slices, not whole buffers): a list of strings; the corrupted view has another LAST offset of the
 list, another validity bit, another offset and other DATA BYTES of the string column — all outside what row 0 designates.
 Row 0 agrees (and reads as before), row 1 does not (and is an error) -/
@@ -767,6 +781,19 @@ example :
     let t : Target := .tuple (.cons .str .nil)
     touchEq t (record fm base) (record fm view) 0 = true ∧ touchEq t (record fm base) (record fm view) 1 = false ∧
     readRecord Fixes.all t fm view 0 = some (.ok (.seq (.cons (.str .borrowed [65]) .nil))) := by
+  decide
+
+/-- the converse does not hold, and is not claimed: equal results with a differing footprint happen by coincidence — a
+corrupted offset pair that designates equal bytes (the run-time tag `untouched-coincidence`); and the relation is not
+idle: a byte INSIDE the designated slice, the validity bit of the row, a field the target names make it false -/
+example :
+    let a : Arr := .bytes .utf8 none [0, 1, 2] [65, 65]
+    let a' : Arr := .bytes .utf8 none [1, 2, 2] [65, 65]
+    let b : Arr := .bytes .utf8 none [0, 1, 2] [66, 65]
+    let c : Arr := .bytes .utf8 (some ⟨[2], 0⟩) [0, 1, 2] [65, 65]
+    touchEq .string a a' 0 = false ∧ readAs Fixes.all .string a 0 = readAs Fixes.all .string a' 0 ∧
+    touchEq .string a b 0 = false ∧ readAs Fixes.all .string a 0 ≠ readAs Fixes.all .string b 0 ∧ touchEq .string a b 1 = true ∧
+    touchEq .string a c 0 = false ∧ readAs Fixes.all .string a 0 ≠ readAs Fixes.all .string c 0 ∧ touchEq .string a c 1 = true := by
   decide
 
 /-! ### the pinned readers do panic / do return foreign elements: concrete witnesses -/
